@@ -275,9 +275,11 @@ var c09big = Register("C09", "C09.bigfloat", func(a c09BigArgs) *Violation {
 	}
 	var recv *big.Float
 	wantPrec := uint(128)
-	if a.Prec > 0 {
+	if a.Prec > 0 && a.Prec != 1000 {
 		recv = new(big.Float).SetPrec(a.Prec).SetInt64(12345) // pre-loaded receiver
 		wantPrec = a.Prec
+	} else if a.Prec == 1000 {
+		recv = new(big.Float) // a zero-value receiver has precision 0: the documented default of 128 bits applies
 	}
 	f := d.Float(recv)
 	if recv != nil && f != recv {
@@ -541,7 +543,7 @@ func TestC09_BigFloat(t *testing.T) {
 		var prec uint
 		switch ir(t, 0, 4, "precKind") {
 		case 0:
-			prec = 0
+			prec = []uint{0, 1000}[ir(t, 0, 1, "nilOrZeroValue")]
 		case 1:
 			prec = uint(ir(t, 1, 64, "p"))
 		case 2:
